@@ -5,6 +5,7 @@ import re
 import time
 
 VERIF = os.path.dirname(os.path.dirname(os.path.abspath(__file__)))
+EVDIR = os.environ.get('VERIF_EVIDENCE_DIR') or os.path.join(VERIF, 'evidence')
 
 
 class Ctx:
@@ -77,7 +78,7 @@ def finish(ctx, level_text, explanation, rule_text):
             knownhits.append(o)
         else:
             viol.append(o)
-    vdir = os.path.join(VERIF, 'evidence', ctx.pid + '.violations')
+    vdir = os.path.join(EVDIR, ctx.pid + '.violations')
     if os.path.isdir(vdir):
         for f in os.listdir(vdir):
             os.unlink(os.path.join(vdir, f))
@@ -131,8 +132,8 @@ def finish(ctx, level_text, explanation, rule_text):
         'wall_s': round(time.time() - ctx.t0, 3),
         'violations': len(viol),
     }
-    os.makedirs(os.path.join(VERIF, 'evidence'), exist_ok=True)
-    json.dump(ev, open(os.path.join(VERIF, 'evidence', ctx.pid + '.json'), 'w'), indent=1)
+    os.makedirs(EVDIR, exist_ok=True)
+    json.dump(ev, open(os.path.join(EVDIR, ctx.pid + '.json'), 'w'), indent=1)
     print('[%s] tier=%s obligations=%d discharged=%d known=%d violations=%d functions=%d wall=%.1fs' % (
         ctx.pid, ctx.tier, len(real), ev['coverage']['discharged'], len(knownhits), len(viol), len(ctx.functions), ev['wall_s']))
     return 1 if viol else 0
